@@ -45,7 +45,7 @@ Init ==
     running |-> 0, maxRunning |-> 0,
     aliases |-> << >>,      \* alias bindings: [a, topic]
     stops |-> 0, stopProto |-> FALSE, stopError |-> FALSE, stopPeer |-> FALSE,
-    discOut |-> 0, discIn |-> FALSE, discPend |-> FALSE, discInViol |-> FALSE, ctlRun |-> {}, excuse |-> FALSE, zeroSei |-> TRUE,
+    discOut |-> 0, discIn |-> FALSE, discPend |-> FALSE, discInViol |-> FALSE, ctlRun |-> {}, excuse |-> FALSE, hfail |-> FALSE, zeroSei |-> TRUE,
     expectDisc |-> -1,      \* v5: reason code the DISCONNECT must carry (-1 = no expectation)
     appDisc |-> FALSE,      \* the application supplied / asked for its own DISCONNECT
     connDone |-> FALSE, gateStop |-> FALSE,
@@ -164,6 +164,14 @@ OnInPubrel(m, ev) ==
          \* answer is not pinned down (kind pubrel_early)
          AddReq([m EXCEPT !.pubs[i].rel = TRUE],
                 IF m.pubs[i].recd \/ m.pubs[i].st = "ok" THEN "pubrel" ELSE "pubrel_early", ev.id)
+  ELSE IF m.role = "server" /\ ~(\E k \in 1..Len(m.pubs) : m.pubs[k].id = ev.id /\ m.pubs[k].q = 2 /\ ~m.pubs[k].refused /\ ~m.pubs[k].comp)
+          /\ (\/ \E k \in 1..Len(m.pubs) : m.pubs[k].id = ev.id /\ m.pubs[k].q = 1 /\ ~PubAcked(m.pubs[k])
+              \/ \E k \in 1..Len(m.reqs) : m.reqs[k].id = ev.id /\ m.reqs[k].kind \in {"sub", "unsub"} /\ m.reqs[k].st = "wait")
+    THEN \* a server: the identifier is in use, but by an exchange that never awaits a PUBREL (QoS 1 publish, SUBSCRIBE,
+         \* UNSUBSCRIBE) - the PUBREL must not release it: MQTT 3.1.1 ends the connection, MQTT 5 answers "not found"
+         IF m.ver = 3
+           THEN NeedProto(AddReq(m, "pubrel_early", ev.id), "C11:pubrel-for-an-identifier-that-awaits-none-must-end-v3-connection")
+           ELSE AddReq(m, "pubrel_nf", ev.id)
   ELSE IF \E k \in 1..Len(m.pubs) : m.pubs[k].id = ev.id /\ m.pubs[k].q > 0 /\ ~PubAcked(m.pubs[k])
     THEN AddReq(m, "pubrel_early", ev.id)    \* id used by another exchange: not pinned down
   ELSE IF \E k \in 1..Len(m.reqs) : m.reqs[k].id = ev.id /\ m.reqs[k].kind \in {"sub", "unsub"}
@@ -264,7 +272,9 @@ OnHStart(m, ev) ==
 
 \* C07: a handler failed with an error for which no acknowledgement exists: the Stop notification that
 \* follows has to carry the application's error (unless the connection was already ending)
-ExpectErrStop(m) == IF m.expectStop = "none" /\ ~m.term /\ m.est THEN [m EXCEPT !.expectStop = "stop_error"] ELSE m
+ExpectErrStop(m) == IF ~m.term /\ m.est
+                      THEN [m EXCEPT !.expectStop = IF @ = "none" THEN "stop_error" ELSE @, !.hfail = (m.expectStop \in {"none", "stop_error"})]
+                      ELSE m
 
 OnHEnd(m, ev) ==
   LET i == IdxOf(m.pubs, LAMBDA p : p.h = ev.s /\ p.st = "started")
@@ -541,6 +551,10 @@ Step(m, ev) ==
             /\ (ev.x # m.pubs[i].props \/ ev.q # m.pubs[i].mei \/ ev.r # m.pubs[i].pfi)
            THEN Fail(m, "C03:handler-saw-wrong-properties") ELSE m
     [] ev.e = "final" -> OnFinal(m, ev)
+    [] ev.e = "quiet" /\ ev.k = "alive" /\ m.est /\ m.hfail /\ m.expectStop = "stop_error" /\ m.stops = 0 /\ ~m.noCtl /\ ~m.term ->
+         \* a handler has failed, everything runnable has run, and the connection control service has not been told:
+         \* the failure is parked somewhere and the connection lives on until something else happens to wake it
+         Fail(m, "C07:handler-failed-and-the-connection-is-still-up-at-quiescence")
     [] ev.e = "panic" -> Fail(m, "C16:panic")
     [] ev.e = "conn_done" -> End([m EXCEPT !.connDone = TRUE], "local")
     [] ev.e \in {"peer_close", "io_err", "end"} -> End(m, "peer")
